@@ -24,6 +24,8 @@ Contract file directives (one per line, everything up to the next `//@` line is 
   //@ in <qual> after "<anchor>"          payload inserted immediately after the anchor text
   //@ in <qual> before "<anchor>"         payload inserted immediately before the anchor text
   //@ in <qual> body-start                payload inserted right after the body's `{`
+  //@ in <qual> closure "<anchor>"        payload (`-> (r: T) ensures …`) after the closure parameter list that the anchor ends with;
+                                          an expression body gets braces
   //@ in <qual> before-tail               payload inserted before the last statement / tail expression of the body
   //@ file-before "<anchor>" / file-after "<anchor>"   payload inserted before/after a unique anchor of the file
   //@ block <header> start|end            payload inserted right after the `{` / before the `}` of the
@@ -544,6 +546,30 @@ def annotate(repo, contracts, out):
                 else:
                     ins = cur.toks[bl[0][2]].pos
                     cur.add(ins, ins, text, orig)
+                continue
+            m = re.match(r'in\s+(.+?)\s+closure\s+' + _q + '$', head)
+            if m:
+                # contract on a closure: payload (`-> (r: T) ensures …`) goes after the parameter list named by the anchor;
+                # an expression body is wrapped in braces (required by Rust once a return type is written)
+                f = cur.fn(m.group(1).strip())
+                anchor = unq(m.group(2))
+                p = cur.find_anchor(f, anchor)
+                b = cur.tok_at(p + len(anchor))
+                text, orig = payload_text(d, clauses, cur.last_rename)
+                if cur.toks[b].text == '{':
+                    cur.add(cur.toks[b].pos, cur.toks[b].pos, text, orig)
+                else:
+                    e = b
+                    while e < len(cur.toks):
+                        t = cur.toks[e]
+                        if t.kind == 'punct' and t.text in ('(', '[', '{'):
+                            e = cur.pair[e] + 1
+                            continue
+                        if t.kind == 'punct' and t.text in (',', ')', ']', '}', ';'):
+                            break
+                        e += 1
+                    cur.add(cur.toks[b].pos, cur.toks[b].pos, text + ' { ', orig + [dict(kind='wrapper')])
+                    cur.add(cur.toks[e - 1].end, cur.toks[e - 1].end, ' }', [dict(kind='wrapper')])
                 continue
             m = re.match(r'in\s+(.+?)\s+before-tail$', head)
             if m:
